@@ -125,6 +125,11 @@ pub struct Plan {
     pub scope: String,
     pub key: [u8; 32],
     pub layout: AuthLayout,
+    /// headers sent after the date / token headers (before Authorization); signed if listed
+    pub post_headers: Vec<(String, Vec<u8>)>,
+    /// query carrier: use exactly these X-Amz-* parameters (duplicates allowed) instead of the
+    /// generated ones; the signature parameter is still appended last
+    pub query_auth_override: Option<Vec<(Vec<u8>, Vec<u8>)>>,
 }
 
 #[derive(Clone, Debug)]
@@ -168,6 +173,7 @@ pub fn build(p: &Plan) -> Built {
             if let Some(t) = &p.token {
                 headers.push(("X-Amz-Security-Token".into(), t.clone().into_bytes()));
             }
+            headers.extend(p.post_headers.iter().cloned());
             if let Some(bp) = &p.body_params {
                 params.extend(bp.iter().cloned());
             }
@@ -199,6 +205,10 @@ pub fn build(p: &Plan) -> Built {
             if let Some(t) = &p.token {
                 auth.push((b"X-Amz-Security-Token".to_vec(), t.clone().into_bytes()));
             }
+            if let Some(o) = &p.query_auth_override {
+                auth = o.clone();
+            }
+            headers.extend(p.post_headers.iter().cloned());
             params.extend(auth.iter().cloned());
             if let Some(bp) = &p.body_params {
                 params.extend(bp.iter().cloned());
